@@ -37,6 +37,8 @@ def tasks(tier, seed):
 def extra(led, tier, seed):
     from contracts import gemini_registry
     led.extend(gemini_registry.obligations())
+    from contracts import gemini_large
+    led.extend(gemini_large.obligations(seed, tier))
     led.assume("A1", "A2", "A3", "A4", "A8", "A9",
                "A5: ot.emd2 returns the optimal transport cost W1 of its arguments (contract of POT); "
                "W1 is symmetric for a symmetric cost matrix",
